@@ -280,6 +280,19 @@ struct Ctx {
         o += ",\"file\":" + jstr(fileOf(FD->getLocation())) + ",\"ln\":" + std::to_string(lineOf(FD->getLocation()));
         o += ",\"ret\":" + jstr(tyStr(FD->getReturnType()));
         o += ",\"np\":" + std::to_string(FD->getNumParams());
+        // which parameters can modify the caller's argument: non-const lvalue references and pointers to non-const
+        o += ",\"mut\":[";
+        for (unsigned i = 0; i < FD->getNumParams(); ++i) {
+            QualType PT = FD->getParamDecl(i)->getType();
+            bool mut = false;
+            if (PT->isLValueReferenceType()) mut = !PT->getPointeeType().isConstQualified();
+            else if (PT->isPointerType()) mut = !PT->getPointeeType().isConstQualified();
+            else if (PT->isRValueReferenceType()) mut = true;
+            if (i) o += ",";
+            o += mut ? "1" : "0";
+        }
+        o += "]";
+        if (auto *MD2 = dyn_cast<CXXMethodDecl>(FD)) if (MD2->isConst()) o += ",\"const\":1";
         o += "}\n";
         *OS << o;
     }
